@@ -494,7 +494,7 @@ func main() {
 			}
 		})
 	})
-	ctx.Jobs("writefile", 1, func(int) { writeFile(); twoWriters(); oddValues(); sizeOnError() })
+	ctx.Jobs("writefile", 1, func(int) { writeFile(); twoWriters(); oddValues(); sizeOnError(); editsBetweenWrites() })
 	const parts = 32
 	ctx.Jobs("vlq", parts, func(j int) {
 		step := uint64(1<<28) / parts
@@ -612,6 +612,9 @@ func replay() {
 		ctx.Finish("replay")
 	case "two-writers":
 		twoWriters()
+		ctx.Finish("replay")
+	case "edit-between-writes":
+		editsBetweenWrites()
 		ctx.Finish("replay")
 	}
 	cfg, alName, ops := sp.ParseHistory(m)
